@@ -182,6 +182,24 @@ def main():
         ck.fail("C14-determinism", "the same strategies over the same data give different deliveries/orders/fills under different PYTHONHASHSEED (or differ from the model's order)",
                 {"scenario": dsc[i], "delivered_by_seed": {h: delivered_impl(r[i]) for h, r in zip(("0", "1", "12345", "987"), runs)}})
 
+    # ---- family 3b: independence of the WALL clock: markets one hour apart, a client with an hourly transaction limit of 1-3, orders in every
+    # market; the same run under a wall clock that never moves and under one that jumps 25 minutes at every reading
+    wsc = []
+    for _ in range(18 if thorough else 6):
+        s = simgen.gen_scenario(rng, {"nmarkets": [3, 4], "nstrats": [1], "kinds": ["L"], "p_place": 0.9, "p_manage": 0.1, "min_upd": 5, "max_upd": 8, "p_remove": 0.0, "no_remove": True})
+        for c in s["clients"]:
+            c["limit"] = rng.choice([1, 2, 3])
+        wsc.append(s)
+    wpayload = {"scenarios": [simgen.to_impl(s) for s in wsc], "observe": "all"}
+    wruns = [run_impl("simlib", wpayload, extra_env={"VERIF_WALL": w})["out"] for w in ("frozen", "fast")]
+    wbad = [i for i in range(len(wsc)) if len({ledger(r[i]) for r in wruns}) != 1]
+    ck.family("determinism_wall_clock", len(wsc) * 2, len(wsc), [], wbad,
+              dist={"wall_clocks": ["never moves", "jumps 25 minutes at every reading"], "orders_refused_by_the_hourly_limit": sum(1 for io in wruns[0] for r in io["requests"] if r[3] == "place" and r[5] is False),
+                    "orders_accepted": sum(1 for io in wruns[0] for r in io["requests"] if r[3] == "place" and r[5] is True)})
+    for i in wbad[:2]:
+        ck.fail("C14-wall-clock", "the same strategies over the same data give different orders under two wall clocks (one frozen, one jumping 25 minutes per reading): statuses %s vs %s"
+                % ([o["status"] for o in wruns[0][i]["final"]], [o["status"] for o in wruns[1][i]["final"]]), {"scenario": wsc[i], "how": "harness/impl/simlib.py with VERIF_WALL=frozen / fast"})
+
     # ---- family 4: the clock - restored after the run also when it ends with an exception; still simulated after a failing real_time() block
     csc = []
     for k in range(12):
@@ -201,7 +219,7 @@ def main():
         ck.fail("C14-clock", "after an exception inside a strategy callback (incl. inside simulated_datetime.real_time()) the framework clock is no longer the publish time, an update is lost, or the real clock is not restored after the run",
                 {"scenario": csc[i], "calls": couts[i]["calls"], "clock_restored": couts[i]["clock_restored"], "error": couts[i]["error"]})
     ck.assumptions.append("process identity / hash seeds are runtime facts the model cannot express: determinism across PYTHONHASHSEED is sampled (4 seeds), labelled partial for 'configurations'")
-    return ck.finish("runs of 1-5 market files (equal/unequal lengths, identical publish times, 1-3 events, event_processing on/off, closing updates) on the real FlumineSimulation: delivered (market, publish time) sequence compared in Coq with the model's merge; listener filters inplay/seconds_to_start/max_inplay_seconds vs the model; identical ledgers across 4 PYTHONHASHSEEDs for runs with 3 event groups; clock restored / still simulated after exceptions")
+    return ck.finish("runs of 1-5 market files (equal/unequal lengths, identical publish times, 1-3 events, event_processing on/off, closing updates) on the real FlumineSimulation: delivered (market, publish time) sequence compared in Coq with the model's merge; listener filters inplay/seconds_to_start/max_inplay_seconds vs the model; identical ledgers across 4 PYTHONHASHSEEDs for runs with 3 event groups; identical ledgers under a frozen and a jumping wall clock for runs spanning several hours with an hourly transaction limit; clock restored / still simulated after exceptions")
 
 
 def replay(path):
